@@ -161,6 +161,8 @@ func evalTerm(t *Term, m map[string]interface{}) (interface{}, bool) {
 			return string(rune(c)), true
 		}
 		return nil, false
+	case "fmtint":
+		return strconv.FormatInt(I(0), 10), true
 	case "str.from_int":
 		if I(0) < 0 {
 			return "", true
